@@ -5,3 +5,4 @@ import contracts.totality  # noqa  (exception class of unresolvable names)
 
 INFO = {'not_decided': ['namespace packages, a module file and a package directory of one name in one directory, deleted files (outside the domain)'],
         'stated_lemmas': [], 'trusted': []}
+import props._all  # noqa
